@@ -16,7 +16,7 @@ vertices.  A graph with no vertex at all is outside the lemma: the real function
 import z3 as _z3
 
 from pyvc.api import *
-from pyvc.values import VList, HostFn, GhostVal, AbstractSeq, PointwiseSeq
+from pyvc.values import VList, HostFn, GhostVal, AbstractSeq, PointwiseSeq, Opaque
 from pyvc.sym import _zint
 from contracts.c04_graph_plumbing import IncView, EdgeList
 from contracts.c09_emission import T, Ranks, _is_rank
@@ -166,3 +166,144 @@ def single_cycle_emission(case):
         and tail[0].parts[1] == 1 and len(tail[0].parts[0].parts) == 1 and len(arrays) == 2 and tail[0].parts[0].parts[0] is arrays[1]
     check("finally-exactly-one-root", ok)
     check("returns-the-passed-flags", len(arrays) == 2 and o.value is arrays[0])
+
+
+# ------------------------------------------------------------------------------------------------ primitive routes
+def _prim_world():
+    n, m = sint("n"), sint("m")
+    requires(And(n >= 0, m >= 0))
+    LEN, NB, IE = _z3.Function("LEN", I, I), _z3.Function("NB", I, I, I), _z3.Function("IE", I, I, I)
+    inc = IncView(n, m, LEN, NB, IE)
+    g = OBJ(GR, "Graph", num_vertices=n, edges=EdgeList(m, _z3.Function("U", I, I), _z3.Function("V", I, I)), incident_edges=inc)
+    k_ = _z3.Int("k!x")
+    xs = VList(None, m.t, _z3.Lambda([k_], 7000000 + k_), "ref")
+    return n, m, LEN, NB, IE, g, xs
+
+
+def _degree_of(t, i, LEN, IE):
+    """t is count_true([x_{IE(i,k)} for every entry k of row i])"""
+    ok = isinstance(t, T) and t.tag == "count_true" and len(t.parts) == 1
+    if not ok:
+        return False
+    ln = SInt(LEN(_zint(i)))
+    if not bool(length(t.parts[0]) == ln):
+        return False
+    k = fresh_int("entry")
+    requires(And(k >= 0, k < ln))
+    it_k = interp().getitem(t.parts[0], k)
+    return isinstance(it_k, SRef) and bool(same(it_k, SRef(_z3.IntVal(7000000) + IE(_zint(i), k.t))))
+
+
+@harness("C06", structural=True, cases=[dict(what="cycle"), dict(what="path")])
+def primitive_route_emission(case):
+    """native routes: degree rules per vertex (cycle: degree == cond(passed, 2, 0); path: passed -> degree 1 or 2, not passed
+    -> degree 0, and exactly two vertices of degree 1 unless no edge is active), then the connectivity of the active edges
+    is handed to the native operator on Graph.line_graph() (whose contract and operand layout are proved in
+    c04_graph_plumbing.py); this is the reference predicate `degrees + all active edges in one component` itself"""
+    if CTX.mode != "sym":
+        return
+    n, m, LEN, NB, IE, g, xs = _prim_world()
+    posted, arrays, handed, ends = [], [], {}, []
+    lg = OBJ(GR, "Graph", num_vertices=m, edges=Opaque("line graph edges"), incident_edges=Opaque("line graph rows"))
+
+    def bool_array(it, a, k):
+        arr = FlagArr("passed", a[1])
+        arrays.append(arr)
+        return arr
+
+    def avc(it, a, k):
+        handed["args"], handed["kw"] = a, k
+        return None
+
+    use_contract(SOLV + "::Solver.bool_array", bool_array)
+    use_contract(SOLV + "::Solver.ensure", lambda it, a, k: posted.extend(a[1:]))
+    use_contract("cspuz/constraints.py::count_true", lambda it, a, k: T("count_true", *a))
+    use_contract(GR + "::Graph.line_graph", lambda it, a, k: lg if a[0] is g else Opaque("other line graph"))
+    use_contract(GR + "::_active_vertices_connected", avc)
+    ghost("sref_unop", lambda op, a: T("un:" + op, a))
+    solver = OBJ(SOLV, "Solver", variables=mklist([]), is_answer_key=mklist([]), constraints=mklist([]))
+    fn = "_active_edges_single_cycle" if case.what == "cycle" else "_active_edges_single_path"
+    K2 = GR + "::" + fn
+    if case.what == "path":
+        watch("append", K2, "is_endpoint", lambda ns, v: ends.append(v))
+    mark = {}
+
+    def head(ns):
+        mark["p"], mark["e"] = len(posted), len(ends)
+        return None
+
+    def end(ns, token):
+        i = ns.i
+        new = posted[mark["p"]:]
+        if case.what == "cycle":
+            check("one-degree-rule-per-vertex", len(new) == 1)
+            if len(new) == 1:
+                c = new[0]
+                ok = isinstance(c, T) and c.tag == "cmp:Eq" and len(c.parts) == 2
+                check("it-is-an-equation", ok)
+                if ok:
+                    a, b = c.parts
+                    if not (isinstance(a, T) and a.tag == "count_true"):
+                        a, b = b, a
+                    check("of-the-number-of-active-incident-edges", _degree_of(a, i, LEN, IE))
+                    check("with-2-if-passed-else-0", isinstance(b, T) and b.tag == "cond" and _is_flag(b.parts[0], "passed", i) and b.parts[1] == 2 and b.parts[2] == 0)
+            return
+        check("two-degree-rules-per-vertex", len(new) == 2)
+        if len(new) == 2:
+            c1, c2 = new
+            ok = isinstance(c1, T) and c1.tag == "then" and len(c1.parts) == 2 and _is_flag(c1.parts[0], "passed", i)
+            check("passed->...", ok)
+            if ok:
+                body = c1.parts[1]
+                okb = isinstance(body, T) and body.tag == "bin:BitOr" and len(body.parts) == 2
+                check("passed->degree-1-or-2", okb and sorted(
+                    [p.parts[1] if isinstance(p, T) and p.tag == "cmp:Eq" and _degree_of(p.parts[0], i, LEN, IE) else -1 for p in body.parts]) == [1, 2])
+            ok = isinstance(c2, T) and c2.tag == "then" and len(c2.parts) == 2 and isinstance(c2.parts[0], T) and c2.parts[0].tag == "un:Invert" \
+                and _is_flag(c2.parts[0].parts[0], "passed", i)
+            check("not-passed->...", ok)
+            if ok:
+                body = c2.parts[1]
+                check("not-passed->degree-0", isinstance(body, T) and body.tag == "cmp:Eq" and _degree_of(body.parts[0], i, LEN, IE) and body.parts[1] == 0)
+        newe = ends[mark["e"]:]
+        check("one-end-point-indicator-per-vertex", len(newe) == 1)
+        if len(newe) == 1:
+            e_ = newe[0]
+            check("end-point-means-degree-1", isinstance(e_, T) and e_.tag == "cmp:Eq" and _degree_of(e_.parts[0], i, LEN, IE) and e_.parts[1] == 1)
+
+    types = {"degree": "opaque"}
+    if case.what == "path":
+        types["is_endpoint"] = "list:ref"
+        loop_spec(K2, 0, inv=lambda ns: [ns.i >= 0, length(ns.is_endpoint) == ns.i], modifies=["is_endpoint"], types=types, at_head=head, at_end=end)
+    else:
+        loop_spec(K2, 0, inv=lambda ns: [ns.i >= 0], modifies=[], types=types, at_head=head, at_end=end)
+    o = call(REAL(GR, fn), solver, xs, g, True)
+    check("no-exception", not o.raised)
+    if o.raised:
+        return
+    check("one-flag-per-vertex-is-created-and-returned", len(arrays) == 1 and bool(arrays[0].n == n) and o.value is arrays[0])
+    if case.what == "path":
+        check("posted-after-the-loop:the-end-point-rule", len(posted) == 1)
+        if len(posted) == 1:
+            c = posted[0]
+            ok = isinstance(c, T) and c.tag == "bin:BitOr" and len(c.parts) == 2
+            check("two-end-points-or-no-active-edge", ok)
+            if ok:
+                a, b = c.parts
+
+                def two_ends(t):
+                    return isinstance(t, T) and t.tag == "cmp:Eq" and isinstance(t.parts[0], T) and t.parts[0].tag == "count_true" \
+                        and isinstance(t.parts[0].parts[0], VList) and bool(length(t.parts[0].parts[0]) == n) and t.parts[1] == 2
+
+                def no_edge(t):
+                    return isinstance(t, T) and t.tag == "cmp:Eq" and isinstance(t.parts[0], T) and t.parts[0].tag == "count_true" \
+                        and t.parts[0].parts[0] is xs and t.parts[1] == 0
+                check("two-end-points-or-no-active-edge/operands", (two_ends(a) and no_edge(b)) or (two_ends(b) and no_edge(a)))
+    else:
+        check("nothing-posted-after-the-loop", len(posted) == 0)
+    ok = "args" in handed
+    check("connectivity-is-handed-on", ok)
+    if ok:
+        a, k = handed["args"], handed["kw"]
+        allargs = list(a) + [k.get(x) for x in ("acyclic", "use_graph_primitive") if x in k]
+        check("of-the-edge-activities-on-the-line-graph,-native-operator,-no-acyclicity", len(a) >= 3 and a[0] is solver and a[1] is xs and a[2] is lg
+              and k.get("acyclic", a[3] if len(a) > 3 else None) is False and k.get("use_graph_primitive", a[4] if len(a) > 4 else None) is True)
